@@ -550,13 +550,43 @@ def control_tokens(fn, d, locals_):
     return toks
 
 
-def depends_on_fat_type(fn, d, o):
+def fat_type_locals(fn, toks):
+    out = set()
+    for tk in toks:
+        if tk[0] == 'local':
+            ty = fn.local_ty(tk[1]) or {}
+            for _ in range(2):
+                if ty.get('k') in ('ref', 'ptr'):
+                    ty = fn.types[ty['to']]
+            if ty.get('k') == 'adt' and ty.get('path', '').endswith('::FatType'):
+                out.add(tk[1])
+    return out
+
+
+def depends_on_fat_type(fn, d, o, same_as=None):
+    """same_as: operands of FatType type passed in the same call - the dependence must be on (a local feeding) one of them"""
     toks = set(d.of_operand(o))
     locs = {tk[1] for tk in toks if tk[0] == 'local'}
     p = op_place(o)
     if p is not None:
         locs.add(p['l'])
     toks |= control_tokens(fn, d, locs)
+    if same_as:
+        mine = fat_type_locals(fn, toks)
+        theirs = set()
+        for o2 in same_as:
+            t2 = set(d.of_operand(o2))
+            p2 = op_place(o2)
+            if p2 is not None:
+                t2.add(('local', p2['l']))
+            theirs |= fat_type_locals(fn, t2)
+        # the values must share an origin: a FatType local both derive from (the loop variable), not two unrelated ones
+        def origins(ls):
+            out = set(ls)
+            for l in ls:
+                out |= fat_type_locals(fn, d.of_local(l))
+            return out
+        return bool(origins(mine) & origins(theirs))
     for tk in list(toks):
         if tk[0] == 'local':
             ty = fn.local_ty(tk[1]) or {}
@@ -591,15 +621,17 @@ def run_root_region(ctx, rep):
                     # only callers that know the FAT type are held to it (they pass it on)
                     passes_ft = any(((cal.local_ty(j) or {}).get('path') or '').endswith('::FatType') for j in range(1, cal.argc + 1))
                     if passes_ft:
-                        sites.append((b, t['span'], 'argument `root_dir_sectors` of %s' % cal.name.rsplit('::', 1)[-1], t['args'][i - 1]))
+                        ft_ops = [t['args'][j - 1] for j in range(1, cal.argc + 1) if j - 1 < len(t['args']) and
+                                  ((cal.local_ty(j) or {}).get('path') or '').endswith('::FatType')]
+                        sites.append((b, t['span'], 'argument `root_dir_sectors` of %s' % cal.name.rsplit('::', 1)[-1], t['args'][i - 1], ft_ops))
         for bi in fn.reachable():
             for s in fn.blocks[bi]['stmts']:
                 if s['k'] == 'assign' and s['rv']['k'] == 'agg' and s['rv'].get('ak') == 'adt' and s['rv'].get('fields'):
                     for fname in ('root_dir_sectors', 'root_entries'):
                         if fname in s['rv']['fields'] and ('fat_type' in s['rv']['fields'] or fname == 'root_entries'):
                             sites.append((bi, s['span'], 'field `%s` of %s' % (fname, s['rv']['adt'].rsplit('::', 1)[-1]),
-                                          s['rv']['ops'][s['rv']['fields'].index(fname)]))
-        for b, span, what, o in sites:
+                                          s['rv']['ops'][s['rv']['fields'].index(fname)], None))
+        for b, span, what, o, ft_ops in sites:
             if d is None:
                 d = Deps(fn)
             toks0 = d.of_operand(o)
@@ -607,13 +639,13 @@ def run_root_region(ctx, rep):
             if own and any(('param', i) in toks0 for i in own):
                 continue  # handed on from this function's own parameter: judged at this function's callers
             n += 1
-            ok = depends_on_fat_type(fn, d, o)
+            ok = depends_on_fat_type(fn, d, o, ft_ops)
             rep.oblige('V6', '%s|%s' % (fn.name, what), ok=ok, nontrivial=True,
                        sample={'fn': fn.name, 'at': fn.loc(span), 'what': what,
                                'rule': 'the value depends (data or control) on the FAT type'})
             if not ok:
                 rep.violation('V6', vkey('V6', fn.name, what, ''), fn.loc(span),
-                              'the %s in %s does not depend on the FAT type: FAT32 has no fixed root-directory region (its BPB '
+                              'the %s in %s does not depend on the FAT type it is used for: FAT32 has no fixed root-directory region (its BPB '
                               'says 0 root entries), so a size that is the same for every FAT type mis-sizes the tables of '
                               'one of them' % (what, fn.name))
     rep.counts['V6.sites'] = n
